@@ -25,7 +25,7 @@ ASSUMPTIONS = ["expiry instant = PV timestamp + itsGnLifetimeLocTE on the DUT cl
                "until its next beacon/SHB or expiry",
                "packets the reference DPL identifies as duplicates are not 'processed' and carry no obligation",
                "placeholder entries created by the location service for a sought address are ignored"]
-EXPECTED_PROBES = ["entry-compared", "pv-older-ignored", "pv-equal-ignored", "pv-newer-wins", "tst-ahead-of-dut", "expired-and-gone", "alive-and-present",
+EXPECTED_PROBES = ["tst-exactly-zero", "entry-compared", "pv-older-ignored", "pv-equal-ignored", "pv-newer-wins", "tst-ahead-of-dut", "expired-and-gone", "alive-and-present",
                    "neighbour-true-checked", "neighbour-false-checked", "multihop-on-neighbour", "own-address-packet", "tst-wrapped", "tst-pairs"]
 
 WRAP_UNIX_MS = 1072915195000 + 162 * (1 << 32)      # a 2^32 ms TST wrap instant (January 2026)
@@ -110,6 +110,18 @@ def gen_plan(run_seed: int, tier: str) -> dict:
     t += r.choice([0, life * 1_200_000])
     ops.append({"op": "inject", "t": t, "frm": 2, "to": [0], "own": False, "dut_off": -10,
                 "pkt": npl.rand_pkt(r, "BEACON", macs[7], so=npl.rand_lpv(r, npl.rand_addr(r, macs[7]), pos=[blat, blon], tst_off=-10 + dut_off, full_range=False), lt=26)})
+    # wrap runs (own PRNG stream): some position vectors are stamped EXACTLY TST 0 (the wrap instant itself) - a value that code is
+    # tempted to use as "no timestamp yet"
+    r2 = random.Random(run_seed ^ 0x7570)
+    if wrap and r2.random() < 0.6:
+        for o in ops:
+            if o["op"] != "inject" or "pkt" not in o:
+                continue
+            delta = WRAP_UNIX_MS - (t0 // 1000 + o["t"] // 1000)      # offset (true time) that makes the timestamp 0
+            if abs(delta) <= 3500 and r2.random() < 0.4:
+                o["pkt"]["so"]["tst_off_ms"] = delta
+                o["dut_off"] = delta - dut_off
+                o["tst_zero"] = True
     cfg = {"t0_us": t0, "net_seed": r.getrandbits(32), "latency_us": [100, 300], "fifo": True, "topology": links,
            "run_limit_us": t + 500_000, "fault_class": "none", "wrap": wrap, "clean": clean}
     return {"engine": ENGINE, "property": ID, "config": cfg, "stations": stations, "ops": ops}
@@ -162,6 +174,8 @@ class RefLocT(Monitor):
             sim.probe("tst-ahead-of-dut")
         if so["tst"] < 100_000 and sim.cfg.get("wrap"):
             sim.probe("tst-wrapped")
+        if so["tst"] == 0:
+            sim.probe("tst-exactly-zero")
         key = f"{typ}/{rel}" + ("/wrapped" if sim.cfg.get("wrap") and so["tst"] < (1 << 30) else "")
         verdict = "?"
         if mid == st.mac:
